@@ -20,7 +20,7 @@ def native_replay(replay_dir, harness, vals, in_crate, timeout=1800, repo_crate=
     if in_crate:
         env["RUSTFLAGS"] = "--cfg gix_verif"
         env["CARGO_TARGET_DIR"] = os.path.join(BUILD, "native", "in-crate")
-        cmd = ["cargo", "test", "--offline", "-p", repo_crate, "--lib", "--", "gix_verif_replay", "--nocapture", "--test-threads", "1"]
+        cmd = ["cargo", "test", "--offline", "--manifest-path", os.path.join(REPO, repo_crate, "Cargo.toml"), "--lib", "--", "gix_verif_replay", "--nocapture", "--test-threads", "1"]
         cwd = REPO
     else:
         env["CARGO_TARGET_DIR"] = os.path.join(BUILD, "native", os.path.basename(os.path.dirname(replay_dir.rstrip("/"))))
